@@ -34,6 +34,14 @@ CLAIMED = {
    text="29 theorems: port_algebra (+ _diff, _sim, _getitem, _slice, _add, _invert, _direction) for every expression tree of subscripts, + and ~ over the three port classes; buffer_legal / ffbuffer_legal; buffer_o / buffer_oe / buffer_i / bidir_loopback / buffer_width; ffbuffer_registers / ffbuffer_one_stage / ffbuffer_domains over arbitrary event sequences of two clocks; buffer_real_single / buffer_real_diff (inversion on the fabric side, n half complemented); single_use (+ _conflict, _accept, _exactly_one) for any sequence of buffer cells. Tied to /repo by exhaustive enumeration over widths 0-6 x all inversion masks x all directions x legal and illegal port/buffer combinations, all integer keys and unit-step slices, random trees of depth <= 4, simulation of Buffer and FFBuffer on SimulationPorts with hand-driven clocks, and netlists of real ports (IOBuffer cells collected and evaluated; double use must raise DriverConflict).",
    note="Trusted: Lean kernel + standard axioms, Lean compiler for the driver, the harness and its small netlist interpreter. DDRBuffer is covered up to its constructor only.",
    ref="DESIGN.md §6 C18"),
+ "C13": dict(cat="proof", tech="Lean 4 invariant/refinement proof over arbitrary interleavings of two clocks (Gray-code lemmas for any width) + reachable-graph and random-interleaving correspondence against the simulated FIFOs",
+   text="38 theorems for every event list over {write edge, read edge, coincident edges} x strobes, every counter width >= 1 and data width: Gray lemmas (gray_xor, gray_inj, gray_decode, gray_succ_one_bit, gray_wrap_one_bit, gray_full_test, gray_full_test_counters); for AsyncFIFO and AsyncFIFOBuffered: *_order (delivered words are exactly the first accepted words, in order), *_r_data, *_not_full_overrun, *_held_le_depth, *_levels_in_range, drains / drains_all with explicit edge bounds (2 resp. 3 read edges), *_refines_queue2 (a two-sided Spec monitor accepts every run from power-on, including the r_rst power-on transient), depth_rounding*, built_*, elaborates (every constructible depth). The register-level model is tied to lib/fifo.py by loading every reachable model state into the real registers for the smallest depths and comparing every successor, by random interleavings with hand-driven clocks over depths {0..17} and widths {0,1,4}, by the exhaustive Gray tables and by a constructor sweep over depths 0..70.",
+   note="Trusted: Lean kernel + standard axioms, Lean compiler for the driver, the harness. The write-domain reset asserted mid-run is not modelled (the property does not quantify over resets). F6 (depth-1 elaboration) was found and repaired; elaborates_old_partial keeps the old behaviour with its witness.",
+   ref="DESIGN.md §6 C13"),
+ "C15": dict(cat="proof", tech="Lean 4 theorems (list induction over resolved layout entries, mutual induction over layout trees) + exhaustive-bit-pattern correspondence against lib.data / lib.enum, simulation and Python's enum.Flag",
+   text="21 theorems over all layout trees, widths, offsets, bit patterns and initialisers: struct_offsets, union_offsets, array_offsets, field_in_bounds, struct_array_nonoverlapping, const_bits (last covering write wins per bit, also for overlapping flexible layouts), const_in_range, const_field / const_field_lifted / const_field_all, bits_roundtrip, const_from_bits_law, view_is_slice, view_eq_const, view_nested, view_slice_slice, field_assign_local, enum_roundtrip, flag_ops, flag_invert (STRICT/CONFORM), flag_invert_keep_eject_partial (full statement false of the code: recorded finding F16). Tied to /repo by random layout trees (struct/union/array/flexible, depth <= 4, signed, enum, zero-width fields, overlaps) with all raw bit patterns for size <= 10, Layout.const, Const[...], from_bits, Signal.like, simulated View reads and testbench/comb/sync writes through field paths, RTLIL elaboration, and generated Enum/Flag classes with Python's own enum.Flag as the oracle of the flag clause.",
+   note="Trusted: Lean kernel + standard axioms, Lean compiler for the driver, the harness, CPython's enum.Flag as oracle. F11, F12, F17 were found/confirmed by this check and repaired; F16 is reported as KNOWN-FINDING (its repair changes a repr pinned by the repo's tests). 'In synthesis alike' is checked only as far as RTLIL elaboration; RTLIL behaviour is C04.",
+   ref="DESIGN.md §6 C15"),
 }
 
 NOT_APPLICABLE = {
